@@ -1,5 +1,326 @@
 package engcodec
 
-import "errors"
+// Engine "hash" (C17). Coq cannot run SHA-256 / BLAKE2b, so the tie between the model's
+// preimages and the real digests goes through a witness: for every generated value the engine
+// builds the preimage bytes with an independent re-implementation of the documented format,
+// checks in Go that hashing these bytes gives exactly the digest the REAL code returns
+// (Info.Hash, Group.Hash, Node.Hash, DistPublic.Hash), and hands fields + witness + the result of
+// that check to Coq, where `ok` demands (a) the check succeeded and (b) the model's preimage,
+// computed by folding over the write order generated from the sources, equals the witness.
+// Together: hash(model preimage) = real digest. Nested digests (node hashes, the distributed
+// key hash) reach the model through an oracle table of (preimage, digest) pairs that are
+// themselves checked in Go against the real functions.
 
-func RunHash(outDir string, seed int64, tier string) error { return errors.New("not yet") }
+import (
+	"bytes"
+	"crypto/sha256"
+	"encoding/binary"
+	"encoding/hex"
+	"encoding/json"
+	"fmt"
+	"reflect"
+	"sort"
+	"strings"
+	"time"
+
+	"golang.org/x/crypto/blake2b"
+	"google.golang.org/protobuf/proto"
+
+	"github.com/BurntSushi/toml"
+	"github.com/drand/drand/v2/common"
+	"github.com/drand/drand/v2/common/chain"
+	"github.com/drand/drand/v2/common/key"
+	"github.com/drand/drand/v2/crypto"
+	pb "github.com/drand/drand/v2/protobuf/drand"
+	"github.com/drand/drand/v2/zzverif/emit"
+	"github.com/drand/kyber"
+)
+
+// hexB renders a byte string compactly for the case files (decoded in Coq by ByteEnc.hx).
+func hexB(b []byte) string { return emit.Bytes(b) }
+
+func b2(b []byte) []byte { h := blake2b.Sum256(b); return h[:] }
+func s2(b []byte) []byte { h := sha256.Sum256(b); return h[:] }
+
+func le32(x uint32) []byte { b := make([]byte, 4); binary.LittleEndian.PutUint32(b, x); return b }
+func le64(x uint64) []byte { b := make([]byte, 8); binary.LittleEndian.PutUint64(b, x); return b }
+func be32(x uint32) []byte { b := make([]byte, 4); binary.BigEndian.PutUint32(b, x); return b }
+func be64(x uint64) []byte { b := make([]byte, 8); binary.BigEndian.PutUint64(b, x); return b }
+
+func pointBytes(p interface{ MarshalBinary() ([]byte, error) }) []byte {
+	b, err := p.MarshalBinary()
+	if err != nil {
+		panic(err)
+	}
+	return b
+}
+
+func isDefaultID(id string) bool { return id == "" || id == "default" }
+
+// independent re-implementations of the preimage formats
+func nodePre(n *key.Node) []byte { return append(le32(n.Index), pointBytes(n.Key)...) }
+
+func distPre(d *key.DistPublic) []byte {
+	var out []byte
+	for _, c := range d.Coefficients {
+		out = append(out, pointBytes(c)...)
+	}
+	return out
+}
+
+func groupPre(g *key.Group) []byte {
+	nodes := append([]*key.Node{}, g.Nodes...)
+	sort.SliceStable(nodes, func(i, j int) bool { return nodes[i].Index < nodes[j].Index })
+	var out []byte
+	for _, n := range nodes {
+		out = append(out, b2(nodePre(n))...)
+	}
+	out = append(out, le32(uint32(g.Threshold))...)
+	out = append(out, le64(uint64(g.GenesisTime))...)
+	if g.TransitionTime != 0 {
+		out = append(out, le64(uint64(g.TransitionTime))...)
+	}
+	if g.PublicKey != nil {
+		out = append(out, b2(distPre(g.PublicKey))...)
+	}
+	if !isDefaultID(g.ID) {
+		out = append(out, []byte(g.ID)...)
+	}
+	return out
+}
+
+func infoPre(i *chain.Info) []byte {
+	out := be32(uint32(int64(i.Period) / int64(time.Second)))
+	out = append(out, be64(uint64(i.GenesisTime))...)
+	out = append(out, pointBytes(i.PublicKey)...)
+	out = append(out, i.GenesisSeed...)
+	if !isDefaultID(i.ID) {
+		out = append(out, []byte(i.ID)...)
+	}
+	return out
+}
+
+func cloneGroup(g *key.Group) *key.Group {
+	c := *g
+	c.Nodes = make([]*key.Node, len(g.Nodes))
+	for i, n := range g.Nodes {
+		id := *n.Identity
+		c.Nodes[i] = &key.Node{Identity: &id, Index: n.Index}
+	}
+	if g.PublicKey != nil {
+		c.PublicKey = &key.DistPublic{Coefficients: append([]kyber.Point{}, g.PublicKey.Coefficients...)}
+	}
+	if g.GenesisSeed != nil {
+		c.GenesisSeed = append([]byte{}, g.GenesisSeed...)
+	}
+	return &c
+}
+
+func optList(present bool, items []string) string {
+	if !present {
+		return "None"
+	}
+	return "(Some " + emit.List(items) + ")"
+}
+
+type hashEngine struct {
+	rep   *emit.Report
+	g     *gen
+	cases []string
+	descr []string
+	seen  map[string]bool
+}
+
+func (e *hashEngine) add(c, d string) {
+	e.cases = append(e.cases, c)
+	e.descr = append(e.descr, d)
+	e.rep.Evaluations++
+}
+
+func (e *hashEngine) groupCase(g0 *key.Group, what string) []byte {
+	g := cloneGroup(g0)
+	digest := cloneGroup(g0).Hash()
+	pre := groupPre(g)
+	dok := bytes.Equal(b2(pre), digest)
+	var nodes, tbl []string
+	for _, n := range g.Nodes {
+		np := nodePre(n)
+		real := n.Hash()
+		if !bytes.Equal(b2(np), real) {
+			dok = false
+		}
+		nodes = append(nodes, fmt.Sprintf("(%d, %s)", n.Index, hexB(pointBytes(n.Key))))
+		tbl = append(tbl, fmt.Sprintf("(%s, %s)", hexB(np), hexB(real)))
+	}
+	var coeffs []string
+	if g.PublicKey != nil {
+		for _, c := range g.PublicKey.Coefficients {
+			coeffs = append(coeffs, hexB(pointBytes(c)))
+		}
+		dp := distPre(g.PublicKey)
+		real := g.PublicKey.Hash()
+		if !bytes.Equal(b2(dp), real) {
+			dok = false
+		}
+		tbl = append(tbl, fmt.Sprintf("(%s, %s)", hexB(dp), hexB(real)))
+	}
+	e.add(fmt.Sprintf("HGroup %s %s %s %s %s %s %s %s %s", emit.List(nodes), emit.Z(int64(g.Threshold)), emit.Z(g.GenesisTime), emit.Z(g.TransitionTime),
+		optList(g.PublicKey != nil, coeffs), hexB([]byte(g.ID)), emit.List(tbl), hexB(pre), emit.Bool(dok)),
+		fmt.Sprintf("group %s scheme=%s n=%d thr=%d tt=%d key=%v id=%q digest=%x", what, g.Scheme.Name, len(g.Nodes), g.Threshold, g.TransitionTime, g.PublicKey != nil, g.ID, digest))
+	e.rep.Count("group/" + what)
+	k := hex.EncodeToString(digest)
+	if !e.seen[k] {
+		e.seen[k] = true
+		e.rep.DistinctNontrivial++
+	}
+	return digest
+}
+
+func (e *hashEngine) infoCase(i *chain.Info, what string) []byte {
+	digest := i.Hash()
+	pre := infoPre(i)
+	dok := bytes.Equal(s2(pre), digest)
+	e.add(fmt.Sprintf("HInfo %s %s %s %s %s %s %s", emit.Z(int64(i.Period)), emit.Z(i.GenesisTime), hexB(pointBytes(i.PublicKey)),
+		hexB(i.GenesisSeed), hexB([]byte(i.ID)), hexB(pre), emit.Bool(dok)),
+		fmt.Sprintf("info %s scheme=%s period=%s genesis=%d id=%q seedlen=%d digest=%x", what, i.Scheme, i.Period, i.GenesisTime, i.ID, len(i.GenesisSeed), digest))
+	e.rep.Count("info/" + what)
+	k := hex.EncodeToString(digest)
+	if !e.seen[k] {
+		e.seen[k] = true
+		e.rep.DistinctNontrivial++
+	}
+	return digest
+}
+
+func cloneInfo(i *chain.Info) *chain.Info {
+	c := *i
+	c.GenesisSeed = append([]byte{}, i.GenesisSeed...)
+	return &c
+}
+
+// chain hash through every encoding path of a group's chain info
+func (e *hashEngine) paths(g *key.Group, dir string) {
+	info := chain.NewChainInfo(cloneGroup(g))
+	want := info.Hash()
+	in := map[string]interface{}{"scheme": g.Scheme.Name, "id": g.ID, "period": g.Period.String(), "genesis": g.GenesisTime, "n": len(g.Nodes)}
+	chk := func(path string, got []byte, err error) {
+		e.rep.Count("path/" + path)
+		if err != nil {
+			e.rep.Fail("C17-path-"+path+"-error", "chain info does not survive this encoding path: "+errClass(err), in)
+			return
+		}
+		if !bytes.Equal(got, want) {
+			e.rep.Fail("C17-path-"+path+"-hash", "chain hash differs after this encoding path", in)
+		}
+	}
+	// protobuf structs
+	p := info.ToProto(nil)
+	i2, err := chain.InfoFromProto(p)
+	chk("proto", hashOf(i2), err)
+	if !bytes.Equal(p.Hash, want) {
+		e.rep.Fail("C17-proto-embedded-hash", "ChainInfoPacket.Hash is not the chain hash", in)
+	}
+	// protobuf wire
+	wire, err := proto.Marshal(p)
+	if err == nil {
+		var q pb.ChainInfoPacket
+		if err = proto.Unmarshal(wire, &q); err == nil {
+			i2, err = chain.InfoFromProto(&q)
+		}
+	}
+	chk("protowire", hashOf(i2), err)
+	// JSON (Info.MarshalJSON / UnmarshalJSON)
+	js, err := json.Marshal(info)
+	var i3 chain.Info
+	if err == nil {
+		err = json.Unmarshal(js, &i3)
+	}
+	chk("json", hashOf(&i3), err)
+	// hexjson of the packet (ToJSON / InfoFromJSON)
+	var buf bytes.Buffer
+	err = info.ToJSON(&buf, nil)
+	var i4 *chain.Info
+	if err == nil {
+		i4, err = chain.InfoFromJSON(&buf)
+	}
+	chk("hexjson", hashOf(i4), err)
+	// group file: TOML text, and the key store
+	var tb bytes.Buffer
+	err = toml.NewEncoder(&tb).Encode(cloneGroup(g).TOML())
+	g2 := new(key.Group)
+	if err == nil {
+		gt := new(key.GroupTOML)
+		if _, err = toml.Decode(tb.String(), gt); err == nil {
+			err = g2.FromTOML(gt)
+		}
+	}
+	if err == nil {
+		chk("grouptoml", chain.NewChainInfo(g2).Hash(), nil)
+	} else {
+		chk("grouptoml", nil, err)
+	}
+	st := key.NewFileStore(dir, "hashpaths")
+	err = st.SaveGroup(cloneGroup(g))
+	var g3 *key.Group
+	if err == nil {
+		g3, err = st.LoadGroup()
+	}
+	if err == nil && g3 != nil {
+		chk("groupfile", chain.NewChainInfo(g3).Hash(), nil)
+	} else {
+		chk("groupfile", nil, fmt.Errorf("load: %v", err))
+	}
+	// group protobuf
+	gp := cloneGroup(g).ToProto(common.GetAppVersion())
+	g4, err := key.GroupFromProto(gp, nil)
+	if err == nil {
+		chk("groupproto", chain.NewChainInfo(g4).Hash(), nil)
+	} else {
+		chk("groupproto", nil, err)
+	}
+	// JSON decode-side check
+	var m map[string]interface{}
+	_ = json.Unmarshal(js, &m)
+	reject := func(class, what string, mut func(map[string]interface{}), wantReject bool) {
+		mm := map[string]interface{}{}
+		for k, v := range m {
+			mm[k] = v
+		}
+		mut(mm)
+		b, _ := json.Marshal(mm)
+		var x chain.Info
+		err := json.Unmarshal(b, &x)
+		e.rep.Count("jsoncheck/" + class)
+		if wantReject && err == nil {
+			e.rep.Fail("C17-json-"+class+"-accepted", what, map[string]interface{}{"json": string(b)})
+		}
+		if !wantReject && err != nil {
+			e.rep.Fail("C17-json-"+class+"-rejected", what, map[string]interface{}{"json": string(b)})
+		}
+	}
+	other := hex.EncodeToString(e.g.bytes(32))
+	reject("wronghash", "chain info whose chain_hash is another hash is accepted", func(mm map[string]interface{}) { mm["chain_hash"] = other }, true)
+	reject("period", "chain info whose period was changed but not its chain_hash is accepted", func(mm map[string]interface{}) { mm["period"] = m["period"].(float64) + 1 }, true)
+	reject("genesis", "chain info whose genesis time was changed but not its chain_hash is accepted", func(mm map[string]interface{}) { mm["genesis_time"] = m["genesis_time"].(float64) + 1 }, true)
+	reject("seed", "chain info whose genesis seed was changed but not its chain_hash is accepted", func(mm map[string]interface{}) { mm["genesis_seed"] = other }, true)
+	reject("id", "chain info whose beacon id was changed but not its chain_hash is accepted", func(mm map[string]interface{}) { mm["beacon_id"] = "another-" + g.ID }, true)
+	reject("absent", "chain info without chain_hash is rejected (coded: accepted)", func(mm map[string]interface{}) { delete(mm, "chain_hash") }, false)
+	reject("same", "unchanged chain info is rejected", func(mm map[string]interface{}) {}, false)
+}
+
+func hashOf(i *chain.Info) []byte {
+	if i == nil || i.PublicKey == nil {
+		return nil
+	}
+	return i.Hash()
+}
+
+func errClass(err error) string {
+	if err == nil {
+		return "nil"
+	}
+	return reflect.TypeOf(err).String()
+}
+
+var _ = strings.Join
+var _ = crypto.ListSchemes
